@@ -48,6 +48,12 @@ def f_none(x):
     return None
 
 
+@m.memento_function(cluster="vfc", version="1")
+def f_big(x):
+    sys.audit("vf.body", "f_big", x)
+    return "big-%s-" % x + "B" * 100000  # larger than the 64 KiB memory cache of the cached configurations
+
+
 def expected(name, x):
     """Reference result of the plain function (kind, payload)."""
     if name == "f_str":
@@ -60,6 +66,8 @@ def expected(name, x):
         return ("part", {"a": "part-a-%s" % x, "b": "identical-bytes"})
     if name == "f_exc":
         return ("exc", ("ValueError", "boom-%s" % x))
+    if name == "f_big":
+        return ("val", "big-%s-" % x + "B" * 100000)
     if name == "f_none":
         return ("val", None)
     raise KeyError(name)
